@@ -14,15 +14,18 @@ Dirs == {"R", "C", "L1", "L2"}
 DS == {"absent", "dir", "meta", "meta_ci"}
 HasMeta(s) == s \in {"meta", "meta_ci"}
 Configs == {c \in [st : [Dirs -> DS], names : {"cur", "leg", "both", "none", "mix_il", "mix_rl"}, content : {"valid", "validempty", "notjson", "empty", "wrongtype"},
-                   cibad : BOOLEAN, slash : BOOLEAN, rev : BOOLEAN] :
+                   cibad : BOOLEAN, slash : BOOLEAN, rev : BOOLEAN, http : BOOLEAN] :
               /\ (c.st["R"] = "absent" => \A d \in Dirs : c.st[d] = "absent")
               /\ (c.cibad => c.content = "valid")
+              \* over HTTP there is no directory listing: only compose/ and the location itself are probed
+              /\ (c.http => c.st["R"] # "absent" /\ ~c.rev /\ c.names \in {"cur", "leg", "none"} /\ c.content \in {"valid", "notjson"})
               /\ (c.rev => c.names \in {"mix_il", "mix_rl", "both"} /\ ~c.slash)     \* accessor order matters only for mixed generations
               /\ (c.names \in {"mix_il", "mix_rl"} => c.content \in {"valid", "notjson"})
               /\ (Mode = "quick" => (c.slash => c.names = "cur") /\ (c.content # "valid" => c.names \in {"cur", "both"}) /\ (c.content = "validempty" => c.names = "cur")) }
 \* ---- resolution
 Resolved(c) ==
   IF c.st["C"] = "meta_ci" THEN {"C"}
+  ELSE IF c.http THEN {"R"}
   ELSE IF c.st["R"] = "absent" THEN {"R"}
   ELSE LET subs == {d \in {"C", "L1", "L2"} : HasMeta(c.st[d])}
        IN IF subs # {} THEN subs ELSE {"R"}
@@ -50,7 +53,7 @@ ASSUME Exists
 VARIABLE c
 Init == c \in Configs
 Next == FALSE /\ UNCHANGED c
-Emit == PrintT("@@" \o ToJson([st |-> c.st, names |-> c.names, content |-> c.content, cibad |-> c.cibad, slash |-> c.slash, rev |-> c.rev,
+Emit == PrintT("@@" \o ToJson([st |-> c.st, names |-> c.names, content |-> c.content, cibad |-> c.cibad, slash |-> c.slash, rev |-> c.rev, http |-> c.http,
                                 resolved |-> Resolved(c),
                                 exp |-> [d \in Resolved(c) |-> [k \in Kinds |-> Get(k, c, d)]]]))
 =============================================================================
